@@ -53,7 +53,17 @@ def indexAssert (r : Rec) (n : PTree) : IxM Unit := do
 def indexNameValue (value : PTree) : IxM (Option (String × FileRange)) := do
   let some name := (Ast.valueInnerValues value).head? | return none
   let some sv := Ast.innerValueSimpleValue name | return none
-  if sv.kind == .Identifier then utilsIdentifier sv else return none
+  if sv.kind == .Identifier then utilsIdentifier sv
+  else if sv.kind == .String && (Ast.valueInnerValues value).length == 1 then
+    -- `def "name"`: the name is what stands between the quotes of a single string
+    let nm := Ast.stringValue sv
+    let some tok := sv.firstToken | return none
+    -- (several adjacent strings, or a quote escaped at an end, make a name that is not the text of one token)
+    if nm.isEmpty || tok.text.toList != '"' :: (nm.toList ++ ['"']) then return none
+    if tok.stop < tok.start + 2 then panic "assertion failed: start.raw <= end.raw"     -- `end - 1`, `TextRange::new`
+    let file ← currentFileId
+    return some (nm, ⟨file, tok.start + 1, tok.stop - 1⟩)
+  else return none
 
 /-- `impl Indexable for ast::Defvar` -/
 def indexDefvar (r : Rec) (n : PTree) : IxM Unit := do
@@ -435,9 +445,12 @@ def sameFileDefset : IxM (Option Nat) := do
 def indexDef (r : Rec) (n : PTree) : IxM Unit := do
   let defsetId ← sameFileDefset
   let mut defId := 0
-  match Ast.defName n with
-  | some nameValue =>
-    let some (name, defineLoc) ← indexNameValue nameValue | return
+  -- a name that is computed (`def !strconcat(..)`, `def "a" # b`) makes an anonymous record
+  let named ← match Ast.defName n with
+    | some nameValue => indexNameValue nameValue
+    | none => pure none
+  match named with
+  | some (name, defineLoc) =>
     if (← currentMulticlassId).isSome then
       defId ← addMulticlassDef { name := name, kind := .def_, defineLoc := defineLoc }
     else
@@ -458,9 +471,11 @@ def indexDef (r : Rec) (n : PTree) : IxM Unit := do
 def indexDefm (r : Rec) (n : PTree) : IxM Unit := do
   let defsetId ← sameFileDefset
   let mut defmId := 0
-  match Ast.defmName n with
-  | some nameValue =>
-    let some (name, defineLoc) ← indexNameValue nameValue | return
+  let named ← match Ast.defmName n with
+    | some nameValue => indexNameValue nameValue
+    | none => pure none
+  match named with
+  | some (name, defineLoc) =>
     defmId ← addDefm { name := name, defineLoc := defineLoc } defsetId.isNone
   | none =>
     let name ← nextAnonymousDefName
@@ -608,12 +623,36 @@ def indexSimpleValue (r : Rec) (n : PTree) : IxM (Option Ty) := do
     return some (.bits width)
   | .List =>
     let some valueList := Ast.listValueList n | return none
-    -- `filter_map(|value| value.index(ctx)).collect()`: every element is indexed, the first type wins
-    let mut first : Option Ty := none
+    -- `filter_map(..).collect()`: every element is indexed; the typed ones are kept with their ranges
+    let mut valueTypes : Array Ty := #[]
     for value in Ast.valueListValues valueList do
       if let some typ ← r.value value then
-        if first.isNone then first := some typ
-    return some (.list (first.getD .any))
+        valueTypes := valueTypes.push typ
+    -- `[a, b]<T>` and `[]<T>` spell the element type out
+    let mut annotated : Option Ty := none
+    if let some typNode := Ast.listType n then
+      let some t ← r.typ typNode | return none
+      annotated := some t
+    let isAnnotated := annotated.isSome
+    -- the elements of a list have one type: the widest among them, or what they have in common
+    let mut elmTyp := annotated
+    for typ in valueTypes.toList do
+      match elmTyp with
+      | none => elmTyp := some typ
+      | some cur =>
+        if ← canBeCastedTo typ cur then
+          elmTyp := some cur
+        else if !isAnnotated && (← canBeCastedTo cur typ) then
+          elmTyp := some typ
+        else
+          let common ← if isAnnotated then pure none else withSM (fun sm => sm.commonTyp cur typ)
+          match common with
+          | some c => elmTyp := some c
+          | none =>
+            -- (any of the two may be the odd one out: the literal as a whole is at fault)
+            error (nodeRange n) s!"list elements of type '{cur}' and '{typ}' are incompatible"
+            elmTyp := some cur
+    return some (.list (elmTyp.getD .any))
   | .Dag =>
     if let some value := (Ast.dagOperator n).bind Ast.dagArgValue then
       let _ ← r.value value
